@@ -46,6 +46,8 @@ STRS = ["a", "abc", " a ", "ünïcödé ß", "line1\nline2", '"quoted"', "{}", "
         "a b", "  lead", "trail  ", "%", "@id", "&a", "*a", "!tag", "|", ">", "a\r\nb", " "]
 # beyond the Basic Multilingual Plane, Unicode line/paragraph separators, NEL, BOM, control characters, combining marks
 STRS += ["\U0001F600", "a\U0001D11Eb", "x\u2028y", "x\u2029y", "x\x85y", "\ufeffbom", "bell\x07", "e\u0301", "\u200b", "\x7f"]
+# long strings with runs of spaces (a YAML writer that folds lines loses them)
+STRS += ["trail   " + "x" * 120 + "  abc", "a  b " * 30]
 MIMES = ["text/plain", "application/json;charset=utf-8", "a/b", "image/png", "x-y/z.w+v;a=b;c=d"]
 HASHES = ["00ff", "ABCDEF", "0", "deadbeef" * 8]
 DURS = ["PT3H4M1S", "P1D", "PT0S", "PT0.5S", "P1W", "PT36H", "P1DT12H", "PT1M", "P1Y2M", "P1M", "-PT1H", "PT0.000001S", "P3DT0.25S"]
